@@ -90,6 +90,8 @@ func (w *World) Apply(from State, a Action, extraEnv []string) *Obs {
 		w.putOut(w.outDPath(), "trunc:"+v+":"+a.K, pkg)
 	case "corrupt":
 		w.putOut(w.outDPath(), a.G, pkg)
+	case "extend":
+		w.putOut(w.outDPath(), "ext:"+strings.TrimPrefix(from.OutD, "gen:"), pkg)
 	case "blockD":
 		w.putOut(w.outDPath(), "dir", pkg)
 	case "blockC":
